@@ -12,6 +12,7 @@ import (
 	"sort"
 	"strings"
 	"sync"
+	"time"
 
 	"k8s.io/apimachinery/pkg/api/meta"
 	"k8s.io/apimachinery/pkg/runtime"
@@ -454,4 +455,133 @@ func (w *World) Count(op *Op) (kubeN, waitN, storeN, extN int) {
 	o.Fault = Fault{}
 	r := c.Run(&o)
 	return r.KubeN, r.WaitN, r.StoreN, r.ExtN
+}
+
+// ConcResult is what one of several concurrently run operations did.
+type ConcResult struct {
+	ID     int
+	Err    error
+	Rel    *release.Release
+	Events []Event
+	Panic  interface{}
+}
+
+// ErrSchedulerStuck is returned when the controlled schedule made no progress within the watchdog period
+// (inconclusive, never a verdict).
+var ErrSchedulerStuck = errors.New("scheduler watchdog expired")
+
+// RunConcurrent runs the operations at the same time, each with its own Configuration, and serialises them at the
+// granularity of individual storage calls, cluster requests and waiter calls: every such call blocks until the scheduler
+// grants it. pick chooses which of the currently blocked operations proceeds next (indexes into the ops slice, ascending);
+// it is called once per granted call, so the sequence of its answers is the schedule. Operations must issue one call at a
+// time (one resource per kind, no concurrency inside an operation).
+func (w *World) RunConcurrent(ops []*Op, pick func(step int, waiting []int) int, watchdog time.Duration) ([]*ConcResult, []int, error) {
+	type ev struct {
+		op   int
+		done bool
+	}
+	events := make(chan ev, len(ops)*4)
+	grants := make([]chan struct{}, len(ops))
+	results := make([]*ConcResult, len(ops))
+	start := w.Log.Len()
+	var wg sync.WaitGroup
+	for i, op := range ops {
+		i, op := i, op
+		grants[i] = make(chan struct{})
+		w.nextOp++
+		id := w.nextOp
+		results[i] = &ConcResult{ID: id}
+		ctx := &OpCtx{ID: id, Fault: op.Fault}
+		ctx.Gate = func(layer, verb, key string) {
+			events <- ev{op: i}
+			<-grants[i]
+		}
+		wg.Add(1)
+		go func() {
+			defer wg.Done()
+			defer func() { events <- ev{op: i, done: true} }()
+			cfg, cleanup := w.NewConfig(ctx)
+			defer cleanup()
+			defer func() {
+				if p := recover(); p != nil {
+					results[i].Panic = p
+					results[i].Err = fmt.Errorf("PANIC: %v", p)
+				}
+			}()
+			switch op.Kind {
+			case "install":
+				a := action.NewInstall(cfg)
+				a.ReleaseName, a.Namespace = w.Name, "default"
+				a.Atomic, a.Replace, a.DisableHooks = op.Atomic, op.Replace, op.DisableHooks
+				a.WaitStrategy = kube.StatusWatcherStrategy
+				results[i].Rel, results[i].Err = a.Run(op.buildChart(), map[string]interface{}{})
+			case "upgrade":
+				a := action.NewUpgrade(cfg)
+				a.Namespace = "default"
+				a.Atomic, a.CleanupOnFail, a.DisableHooks = op.Atomic, op.CleanupOnFail, op.DisableHooks
+				a.WaitStrategy = kube.StatusWatcherStrategy
+				results[i].Rel, results[i].Err = a.Run(w.Name, op.buildChart(), map[string]interface{}{})
+			default:
+				panic("RunConcurrent supports install and upgrade")
+			}
+		}()
+	}
+	state := make([]int, len(ops)) // 0 running, 1 waiting, 2 done
+	running := len(ops)
+	var schedule []int
+	step := 0
+	timer := time.NewTimer(watchdog)
+	defer timer.Stop()
+	finish := func() {
+		// release everything so no goroutine stays parked
+		for i := range ops {
+			if state[i] != 2 {
+				close(grants[i])
+			}
+		}
+	}
+	for {
+		for running > 0 {
+			select {
+			case e := <-events:
+				if e.done {
+					if state[e.op] == 0 {
+						running--
+					}
+					state[e.op] = 2
+				} else {
+					state[e.op] = 1
+					running--
+				}
+			case <-timer.C:
+				finish()
+				return nil, schedule, ErrSchedulerStuck
+			}
+		}
+		var waiting []int
+		for i := range ops {
+			if state[i] == 1 {
+				waiting = append(waiting, i)
+			}
+		}
+		if len(waiting) == 0 {
+			break
+		}
+		choice := waiting[pick(step, waiting)%len(waiting)]
+		step++
+		schedule = append(schedule, choice)
+		state[choice] = 0
+		running = 1
+		grants[choice] <- struct{}{}
+	}
+	wg.Wait()
+	all := w.Log.Events()[start:]
+	for _, r := range results {
+		for _, e := range all {
+			if e.Op == r.ID {
+				r.Events = append(r.Events, e)
+			}
+		}
+	}
+	return results, schedule, nil
 }
